@@ -123,3 +123,10 @@ impl Ctx {
     /// number of cases: quick vs thorough
     pub fn n(&self, quick: usize, thorough: usize) -> usize { if self.tier_thorough { thorough } else { quick } }
 }
+
+/// make a child process die (SIGKILL) when this harness process dies, so that a check that is
+/// interrupted or timed out never leaves language servers or drivers running
+pub fn die_with_parent(cmd: &mut std::process::Command) {
+    use std::os::unix::process::CommandExt;
+    unsafe { cmd.pre_exec(|| { libc::prctl(libc::PR_SET_PDEATHSIG, libc::SIGKILL); Ok(()) }); }
+}
